@@ -37,29 +37,31 @@ func (c *Check) ID() string    { return "C05" }
 func (c *Check) Level() string { return "exploration" }
 func (c *Check) NumCases(tier string) int {
 	if tier == "thorough" {
-		return 12000
+		return 24000
 	}
-	return 640
+	return 1600
 }
 func (c *Check) CaseTimeout() time.Duration { return 120 * time.Second }
 func (c *Check) CrashIsViolation() bool     { return true }
 
 func (c *Check) Rule() string {
-	return "case index mod 4: 0,1 = work conservation on heterogeneous clusters drawn by internal/gen (4 knob variants: mixed, limits, gangs, fractions; actions allocate-only or all; 1-2 cycles; no API faults; queue depth unlimited) - after the allocate action every ready pending workload without a bind/nomination is judged if its class has a greedy-robust witness (single pod, elastic extra pod, gang of k identical pods; no inter-pod affinity / PVC / DRA / topology / sub-groups / MIG; fractional pods single-device only) by searching a witness on the final residual capacity (allocatable - occupying incl. terminating - binds - nominations of the cycle) under the harness' own node predicates and queue limit / non-preemptible-quota model; " +
-		"2 = reclaim-progress and 3 = preempt-progress clusters built by this package (identical nodes, identical single-pod whole-GPU or CPU-only workloads, flat / one root / two-level queue trees, cpu+memory quotas unlimited (GPU variant), no min-runtime, cluster full; binpack/spread, consolidation on/off, scheduling signatures on/off, saturation multiplier, integer and fractional quotas, over-quota weights, queue priorities, explicit preemptibility) - one full cycle (allocate, consolidation, reclaim, preempt, stalegangeviction) must nominate or bind an eligible workload. " +
+	return "case index mod 4: 0,1 = work conservation on heterogeneous clusters drawn by internal/gen (4 knob variants: mixed, limits, gangs, fractions; actions allocate-only or all five; 1-2 cycles with the world model in between; no API faults; queue depth unlimited): after the allocate action every ready pending workload without a bind/nomination is judged if its class has a greedy-robust witness (single pod, elastic extra pod, gang or gang remainder of k identical pods; no inter-pod affinity / PVC / DRA / topology / sub-groups / MIG; sharing pods single-device only: free whole device + 2 pod slots, or an existing group with room) by searching a witness on the final residual capacity (allocatable - occupying incl. terminating - binds - nominations of the cycle) under the harness' own node predicates and its own queue limit / non-preemptible-quota model. " +
+		"2 = reclaim and 3 = preempt clusters built by this package (identical nodes, identical single-pod whole-GPU or CPU-only workloads, flat / one root / two-level queue trees with or without root, cpu+memory quotas unlimited (GPU variant), no min-runtime, cluster full; binpack/spread, consolidation on/off, scheduling signatures on/off, consolidating reclaim on/off, saturation multiplier, integer and fractional quotas (also oversubscribed), over-quota weights, queue priorities, limits, explicit preemptibility, priority gaps of 1): one full cycle (allocate, consolidation, reclaim, preempt, stalegangeviction) must nominate or bind an eligible workload; both clauses (b) and (c) are evaluated on every such cluster. " +
 		"Non-trivial: a case in which at least one workload (a) or one progress situation (b)/(c) was judged. Distinct = distinct hash of (objects, config)."
 }
 
 func (c *Check) Assumptions() []string {
 	return []string{
 		"(a) is judged on the allocate action only (it is the first action of every configuration); a workload that received a nomination (TaskPipelined) counts as placed",
-		"(a) residual capacity subtracts terminating pods AND pods nominated in the cycle (never larger than the scheduler's Idle and Idle+Releasing), so a witness implies both FittingNode and IsTaskAllocatable",
+		"(a) residual capacity subtracts terminating pods AND pods nominated in the cycle (never larger than the scheduler's Idle and Idle+Releasing), so a witness implies both FittingNode and IsTaskAllocatable; capacity only shrinks during allocate, so a witness on the final residual was a witness when the workload was tried",
 		"(a) node feasibility = Ready, schedulable, no pressure / network-unavailable condition, node pool, nodeSelector, required node affinity, NoSchedule/NoExecute taints, required anti-affinity of pods already on nodes; GPU pods are not witnessed on MIG nodes; gpu-memory pods need the gpu.memory label",
-		"(a) queue model: requests of active non-terminating pods + binds + nominations of the cycle rolled up the tree; gpu-memory pods charged ceil(memory/deviceMemory,0.01); a sum that reaches a limit exactly is accepted only if all addends are dyadic (exact in float64)",
-		"(a) cycles in which a Bind call failed or the session did not open are not judged",
-		"(b) demands progress only if the reclaimer's leaf queue and every ancestor below the common ancestor stay within deserved quota (which implies within fair share, because fair share >= min(deserved, requestable)), limits hold, a non-preemptible reclaimer stays within deserved quota at every level, and some other leaf queue with a preemptible running pod is strictly above deserved quota at every level up to the level where the two paths diverge",
-		"(c) demands progress only if a strictly lower-priority preemptible running workload exists in the same leaf queue, the swap keeps every ancestor within its limit, a non-preemptible preemptor stays within deserved quota at every level, and the victims were not taken by another queue's reclaim earlier in the cycle",
-		"(b)/(c) the oracle verifies the unobstructed class itself (identical healthy nodes, identical unconstrained single-pod workloads, no terminating pods, no bind requests, no min-runtime) and does not judge otherwise",
+		"(a) queue model: requests of active non-terminating pods + binds + nominations of the cycle rolled up the tree (flattened like the scheduler does with full-hierarchy-fairness off); gpu-memory pods charged ceil(memory/deviceMemory,0.01); a sum that reaches a limit exactly is accepted only if all addends are dyadic (exact in float64), otherwise 1e-6 below the bound is required",
+		"(a) cycles in which a Bind call failed or the session did not open are not judged; pending pods of one workload must be identical; workloads of missing / non-leaf queues are not judged",
+		"(b) a pending workload is eligible if its leaf queue and every ancestor below the common ancestor stay within deserved quota and limit with it (which implies within fair share: fair share >= min(deserved, requestable) at every level), a non-preemptible reclaimer stays within deserved quota at every level, and some other leaf queue with a preemptible running workload is strictly above deserved quota at every level up to the level where the two paths diverge; demanded: some eligible workload is bound or nominated",
+		"(c) a pending workload is eligible if a strictly lower-priority preemptible running workload exists in the same leaf queue, the exchange keeps the queue and every ancestor within its limit, and a non-preemptible preemptor stays within deserved quota at every level; demanded per leaf queue: some eligible workload is bound or nominated (by any action)",
+		"(b)/(c) a missing progress is reported only if some eligible workload is still eligible under bounds that hold at every moment of the cycle (upper bound of the reclaimer-side allocation = start + every placement of the cycle, lower bound of the victim-side allocation = start - every eviction, victims not evicted by anybody): contention with other workloads of the same cycle is never reported",
+		"(b)/(c) the oracle verifies the unobstructed class itself from the API objects (identical healthy untainted nodes, identical unconstrained single-pod workloads, no terminating pods, no bind requests, no min-runtime, all three actions configured) and does not judge otherwise",
+		"the SUT breaks score ties between nodes in goroutine completion order, so a replay can pick another node than the recorded run; verdicts do not depend on which node was picked",
 	}
 }
 
